@@ -691,7 +691,7 @@ def s_loop_where(draw, desc):
 def s_loops(draw, tier):
     desc = draw(s_graph(shape=draw(st.sampled_from(["tree", "unicyclic", "unicyclic", "core", "core", "biconn"]))))
     shape = desc["shape"]
-    kinds = ["sloop", "gloop", "gloop"] if shape in ("tree", "unicyclic") else ["gloop"]
+    kinds = ["sloop", "sloop", "gloop"] if shape in ("tree", "unicyclic") else ["gloop"]
     kind = draw(st.sampled_from(kinds))
     route = draw(st.sampled_from(["local", "local", "compute", "norm"] if kind == "gloop" else ["local", "local", "compute"]))
     nterms = draw(st.integers(1, 3)) if route == "compute" else 1
@@ -765,7 +765,7 @@ def s_mps_local(draw, tier):
                                   "compute:canonical", "compute:canonical", "compute:envs", "compute:envs",
                                   "compute_local_expectation_canonical", "compute_local_expectation_via_envs"]))
     envs = route in ("compute:envs", "compute_local_expectation_via_envs")
-    desc = draw(s_mps(cyclic=None if envs else False))
+    desc = draw(s_mps(cyclic=draw(st.booleans()) if envs else False))
     n = desc["L"]
     nterms = draw(st.integers(1, 4)) if route.startswith("compute") else 1
     return {"state": desc, "route": route, "wheres": [draw(s_where(n)) for _ in range(nterms)], "gseed": draw(A.seeds),
@@ -1397,6 +1397,8 @@ def run_operator(case):
         raise Violation("inplace-identity", **info)
     up = [out.upper_ind(x) for x in sites]
     lo = [out.lower_ind(x) for x in sites]
+    if sorted(out.outer_inds()) != sorted(up + lo):
+        raise Violation("op-labels", got=sorted(out.outer_inds()), want=sorted(up + lo), **info)
     D = prod(phys)
     got = einsum_value([(np.asarray(a, dtype=np.complex128), i) for a, i in tn_tensors(out)], up + lo).reshape(D, D)
     T = W.reshape(phys + phys)
